@@ -24,6 +24,20 @@ struct Body<'s> {
     loops: Vec<Value>,
     closures: Vec<Value>,
     macros: Vec<Value>,
+    combinators: Vec<Value>,
+}
+
+/// does the expression contain `?` or `return` outside nested closures? (then it cannot be inlined)
+struct Esc(bool);
+impl<'ast> Visit<'ast> for Esc {
+    fn visit_expr_try(&mut self, _e: &'ast syn::ExprTry) { self.0 = true; }
+    fn visit_expr_return(&mut self, _e: &'ast syn::ExprReturn) { self.0 = true; }
+    fn visit_expr_closure(&mut self, _e: &'ast syn::ExprClosure) {}
+    fn visit_macro(&mut self, m: &'ast syn::Macro) {
+        if let Ok(args) = m.parse_body_with(syn::punctuated::Punctuated::<syn::Expr, syn::Token![,]>::parse_terminated) {
+            for a in args.iter() { self.visit_expr(a); }
+        }
+    }
 }
 impl<'ast, 's> Visit<'ast> for Body<'s> {
     fn visit_expr_for_loop(&mut self, e: &'ast syn::ExprForLoop) {
@@ -52,6 +66,22 @@ impl<'ast, 's> Visit<'ast> for Body<'s> {
             "inputs":inputs,"has_ret":has_ret,"body":rj(e.body.span()),"body_is_block":is_block,
             "is_move": e.capture.is_some()}));
         syn::visit::visit_expr_closure(self, e);
+    }
+    fn visit_expr_method_call(&mut self, e: &'ast syn::ExprMethodCall) {
+        if e.args.len() == 1 {
+            if let Some(syn::Expr::Closure(c)) = e.args.first() {
+                let mut esc = Esc(false);
+                esc.visit_expr(&c.body);
+                let pats: Vec<Value> = c.inputs.iter().map(|p| {
+                    let inner = match p { syn::Pat::Type(t) => rj(t.pat.span()), _ => rj(p.span()) };
+                    json!({"span": rj(p.span()), "pat": inner})
+                }).collect();
+                self.combinators.push(json!({"method": e.method.to_string(), "span": rj(e.span()),
+                    "recv": rj(e.receiver.span()), "closure": rj(c.span()), "body": rj(c.body.span()),
+                    "params": pats, "escapes": esc.0, "paren_end": r(e.paren_token.span.close()).1}));
+            }
+        }
+        syn::visit::visit_expr_method_call(self, e);
     }
     fn visit_macro(&mut self, m: &'ast syn::Macro) {
         let name = m.path.segments.last().map(|s| s.ident.to_string()).unwrap_or_default();
@@ -98,7 +128,7 @@ impl<'s> Ix<'s> {
         p.join("::")
     }
     fn push_fn(&mut self, path: String, whole: Span, attrs: &[syn::Attribute], vis: Option<&syn::Visibility>, sig: &syn::Signature, block: &syn::Block) {
-        let mut b = Body { src: self.src, loops: vec![], closures: vec![], macros: vec![] };
+        let mut b = Body { src: self.src, loops: vec![], closures: vec![], macros: vec![], combinators: vec![] };
         b.visit_block(block);
         let (ws, we) = r(whole);
         let after_attrs = match vis {
@@ -115,7 +145,7 @@ impl<'s> Ix<'s> {
         self.items.push(json!({"kind":"fn","path":path,"span":[ws,we],"attrs":attrs_json(attrs,self.src),
             "after_attrs":after_attrs,"sig":rj(sig.span()),"ret":ret,"body":[bs,be],"inputs":inputs,
             "name": sig.ident.to_string(),
-            "loops":b.loops,"closures":b.closures,"macros":b.macros}));
+            "loops":b.loops,"closures":b.closures,"macros":b.macros,"combinators":b.combinators}));
     }
     fn push_simple(&mut self, kind: &str, name: String, whole: Span, attrs: &[syn::Attribute], after_attrs: usize, extra: Value) {
         let path = self.pfx(&name);
